@@ -404,9 +404,11 @@ Definition processed_advice (adv : list dtree) : list dtree :=
           filter is_asrt adv ++ res ++ (match res with [] => filter is_ea adv | _ => [] end)
           ++ filter (fun x => negb (is_asrt x || is_ea x)) adv
   end.
-Definition processed_plain (t : dtree) : dtree :=
+(* on the retry a plain assertion is verified against the text as RECEIVED: fine for one that was there, while one
+   that only surfaced from ciphertext (possible before proposed_fix/C17-2 only) is not found in that text *)
+Definition processed_plain (orig : list N) (t : dtree) : dtree :=
   match t with
-  | DAsrt a _ adv ext => DAsrt a false (processed_advice adv) ext    (* still verified against the text as RECEIVED *)
+  | DAsrt a _ adv ext => DAsrt a (negb (mem_N (a_id a) orig)) (processed_advice adv) ext
   | other => other
   end.
 
@@ -450,7 +452,7 @@ Definition parse_t (tc : tcfg) (c : cfg) (irt : option str) (req : bool) (s : st
                   | Ok _ =>
                       let wa := map v_a W in
                       (* self.response.assertion = resp.assertion happens here, before the decrypted ones are checked *)
-                      let root_left := map processed_plain (filter is_asrt t2) ++ filter (fun x => negb (is_asrt x)) root0 in
+                      let root_left := map (processed_plain (ids_of plain0)) (filter is_asrt t2) ++ filter (fun x => negb (is_asrt x)) root0 in
                       match check_assertions c irt req true true s1 wa with
                       | Err e =>
                           let sf := acc_after_failure c irt req true s1 wa in
